@@ -1385,14 +1385,19 @@ func (gs *GossipSubRouter) rpcs(msg *Message) iter.Seq2[peer.ID, *RPC] {
 			}
 
 			// gossipsub peers
-			gmap, ok := gs.mesh[topic]
-			if !ok {
+			gmap, joined := gs.mesh[topic]
+			if !joined {
 				// we are not in the mesh for topic, use fanout peers
 				gmap = gs.getFanoutPeersForPublishing(topic)
 			}
 
 			csum := computeChecksum(gs.p.idGen.ID(msg))
 			for p := range gmap {
+				// a fanout member that unsubscribed stays in the fanout set until
+				// the next heartbeat; it must not get a copy
+				if _, inTopic := tmap[p]; !joined && !inTopic {
+					continue
+				}
 				// Check if it has already received an IDONTWANT for the message.
 				// If so, don't send it to the peer
 				if _, ok := gs.unwanted[p][csum]; ok {
